@@ -8,6 +8,7 @@ import (
 )
 
 func init() {
+	vfHarnesses["C07_collection_line_x"] = vfhC07CollectionLineX
 	vfHarnesses["C07_varint"] = vfhC07Varint
 	vfHarnesses["C07_uvarint"] = vfhC07Uvarint
 	vfHarnesses["C07_zigzag"] = vfhC07ZigZag
@@ -452,5 +453,29 @@ func vfhC07CollectionEmptyOrder() {
 		vfAssert(sz == len(twkb), "size header tells the truth")
 		vfReach("size")
 	}
+	vfReach("end")
+}
+
+// Quick variant of vfhC07CollectionLine: the three X ordinates are symbolic,
+// all three Y ordinates are one symbolic value; the bbox header alone is read
+// back.
+func vfhC07CollectionLineX() {
+	px, ax, bx, y := vfBoundedOrd("p.x"), vfBoundedOrd("a.x"), vfBoundedOrd("b.x"), vfBoundedOrd("y")
+	vfSmallScaled(px, 0)
+	vfSmallScaled(ax, 0)
+	vfSmallScaled(bx, 0)
+	vfSmallScaled(y, 0)
+	ls := NewLineString(NewSequence([]float64{ax, y, bx, y}, DimXY))
+	gc := NewGeometryCollection([]Geometry{NewPoint(Coordinates{XY: XY{px, y}, Type: DimXY}).AsGeometry(), ls.AsGeometry()}).AsGeometry()
+	twkb, err := MarshalTWKB(gc, 0, TWKBBoundingBoxHeader())
+	vfAssert(err == nil, "marshal succeeds")
+	env, has, err := UnmarshalTWKBEnvelope(twkb)
+	vfAssert(err == nil && has, "bbox header present")
+	mn, mx, ok := env.XYEnvelope.MinMaxXYs()
+	vfAssert(ok, "bbox not empty")
+	ep, ea, eb, ey := vfTWKBExpected(px, 0), vfTWKBExpected(ax, 0), vfTWKBExpected(bx, 0), vfTWKBExpected(y, 0)
+	loX, hiX := vfMinF(ep, vfMinF(ea, eb)), vfMaxF(ep, vfMaxF(ea, eb))
+	vfAssert(vfAnd(vfEqF(mn.X, loX), vfEqF(mx.X, hiX)), "bbox X range is the range of the decoded X ordinates")
+	vfAssert(vfAnd(vfEqF(mn.Y, ey), vfEqF(mx.Y, ey)), "bbox Y range is the single decoded Y ordinate")
 	vfReach("end")
 }
